@@ -171,6 +171,31 @@ pub fn build(m: &mut ReManager, a: &Ast) -> RegLan {
     }
 }
 
+/// build through the SMT-LIB named wrappers (thread-local manager)
+pub fn bw(a: &Ast) -> RegLan {
+    use aws_smt_strings::smt_regular_expressions as sre;
+    match a {
+        Ast::Empty => sre::re_none(),
+        Ast::Eps => sre::str_to_re(&SmtString::from(&[][..] as &[u32])),
+        Ast::AllChars => sre::re_allchar(),
+        Ast::Full => sre::re_all(),
+        Ast::Range(x, y) => sre::re_range(&SmtString::from(*x), &SmtString::from(*y)),
+        Ast::Str(s) => sre::str_to_re(&SmtString::from(&s[..])),
+        Ast::Concat(x, y) => sre::re_concat(bw(x), bw(y)),
+        Ast::Union(l) => sre::re_union_list(l.iter().map(bw).collect::<Vec<_>>()),
+        Ast::Inter(l) => sre::re_inter_list(l.iter().map(bw).collect::<Vec<_>>()),
+        Ast::Comp(x) => sre::re_comp(bw(x)),
+        Ast::Diff(x, y) => sre::re_diff(bw(x), bw(y)),
+        Ast::Star(x) => sre::re_star(bw(x)),
+        Ast::Plus(x) => sre::re_plus(bw(x)),
+        Ast::Opt(x) => sre::re_opt(bw(x)),
+        Ast::Exp(x, k) => sre::re_power(bw(x), *k),
+        Ast::Loop(x, i, j) => sre::re_loop(bw(x), *i, *j),
+        Ast::ConcatList(l) => sre::re_concat_list(l.iter().map(bw).collect::<Vec<_>>()),
+        Ast::DiffList(x, l) => sre::re_diff_list(bw(x), l.iter().map(bw).collect::<Vec<_>>()),
+    }
+}
+
 const A: u32 = 97;
 
 pub fn atoms() -> Vec<Ast> {
@@ -261,6 +286,21 @@ pub fn special_asts() -> Vec<Ast> {
         Ast::Union(vec![Ast::Concat(Box::new(Ast::Full), b()), Ast::Concat(a(), b()), Ast::Eps]),
         Ast::Concat(Box::new(Ast::Opt(a())), Box::new(Ast::Full)),
         Ast::Diff(Box::new(Ast::Full), Box::new(Ast::Star(a()))),
+        // singleton words written with loops over multi-character blocks
+        Ast::Exp(Box::new(Ast::Str(vec![A, A + 1])), 2),
+        Ast::Concat(Box::new(Ast::Str(vec![A, A + 1])), Box::new(Ast::Str(vec![A, A + 1]))),
+        Ast::ConcatList(vec![Ast::Range(A + 2, A + 2), Ast::Exp(Box::new(Ast::Str(vec![A, A + 1])), 3), Ast::Range(A + 2, A + 2)]),
+        Ast::Comp(Box::new(Ast::Union(vec![Ast::Eps, Ast::Concat(Box::new(Ast::Range(0, MAXC - 1)), Box::new(Ast::Full))]))),
+        // list constructors with repeated operands
+        Ast::ConcatList(vec![Ast::Opt(a()), Ast::Opt(a())]),
+        Ast::ConcatList(vec![Ast::Range(A + 2, A + 2), Ast::Loop(a(), 0, 2), Ast::Loop(a(), 0, 2), Ast::Range(A + 2, A + 2)]),
+        Ast::ConcatList(vec![Ast::Star(a()), Ast::Star(a()), Ast::Eps, Ast::Range(A + 1, A + 1)]),
+        Ast::ConcatList(vec![]),
+        Ast::DiffList(Box::new(Ast::Plus(Box::new(Ast::Range(A, A + 2)))), vec![Ast::Inter(vec![Ast::Exp(Box::new(Ast::AllChars), 3), Ast::Concat(a(), Box::new(Ast::Full))])]),
+        Ast::DiffList(Box::new(Ast::Full), vec![]),
+        Ast::Range(A, A),
+        Ast::Union(vec![Ast::Star(a()), Ast::Comp(Box::new(Ast::Star(a())))]),
+        Ast::Inter(vec![Ast::Plus(a()), Ast::Comp(Box::new(Ast::Plus(a())))]),
         // two terms each detectably included in the other (intersections are not pruned by subsumption)
         Ast::Str(vec![A, A + 1]),
         Ast::Inter(vec![Ast::Str(vec![A, A + 1]), Ast::Concat(Box::new(Ast::Full), b())]),
@@ -332,6 +372,18 @@ pub fn c01(ctx: &mut Ctx) -> Option<Failure> {
                 let got = m.str_in_re(&sm(w), e);
                 if got != exp {
                     return fail("ReManager::str_in_re", format!("{} word={:?}", show(&ast), w), format!("{}", exp), format!("{}", got));
+                }
+            }
+            // the same construction through the SMT-LIB-named wrappers (thread-local manager)
+            if n % 4 == 0 {
+                use aws_smt_strings::smt_regular_expressions as sre;
+                let ew = bw(&ast);
+                for w in &ws {
+                    let exp = matches(&ast, w);
+                    let got = sre::str_in_re(&sm(w), ew);
+                    if got != exp {
+                        return fail("smt_regular_expressions wrappers", format!("{} word={:?}", show(&ast), w), format!("{}", exp), format!("{}", got));
+                    }
                 }
             }
             // hash-consing: the same construction again, after other terms exist, is the same term
@@ -937,30 +989,6 @@ pub fn c10(ctx: &mut Ctx) -> Option<Failure> {
             break;
         }
         let r = ctx.case(|| {
-            // build through the SMT-LIB named wrappers (thread-local manager)
-            fn bw(a: &Ast) -> RegLan {
-                use aws_smt_strings::smt_regular_expressions as sre;
-                match a {
-                    Ast::Empty => sre::re_none(),
-                    Ast::Eps => sre::str_to_re(&SmtString::from(&[][..] as &[u32])),
-                    Ast::AllChars => sre::re_allchar(),
-                    Ast::Full => sre::re_all(),
-                    Ast::Range(x, y) => sre::re_range(&SmtString::from(*x), &SmtString::from(*y)),
-                    Ast::Str(s) => sre::str_to_re(&SmtString::from(&s[..])),
-                    Ast::Concat(x, y) => sre::re_concat(bw(x), bw(y)),
-                    Ast::Union(l) => sre::re_union_list(l.iter().map(bw).collect::<Vec<_>>()),
-                    Ast::Inter(l) => sre::re_inter_list(l.iter().map(bw).collect::<Vec<_>>()),
-                    Ast::Comp(x) => sre::re_comp(bw(x)),
-                    Ast::Diff(x, y) => sre::re_diff(bw(x), bw(y)),
-                    Ast::Star(x) => sre::re_star(bw(x)),
-                    Ast::Plus(x) => sre::re_plus(bw(x)),
-                    Ast::Opt(x) => sre::re_opt(bw(x)),
-                    Ast::Exp(x, k) => sre::re_power(bw(x), *k),
-                    Ast::Loop(x, i, j) => sre::re_loop(bw(x), *i, *j),
-                    Ast::ConcatList(l) => sre::re_concat_list(l.iter().map(bw).collect::<Vec<_>>()),
-                    Ast::DiffList(x, l) => sre::re_diff_list(bw(x), l.iter().map(bw).collect::<Vec<_>>()),
-                }
-            }
             let e = bw(&ast);
             for s in &subjects {
                 for t in &repl {
